@@ -462,6 +462,7 @@ def check_distinct_order(pname, gname, vars_, keys, limit):
 
 AGGS = [("COUNT*", False, None), ("COUNT", False, "v"), ("COUNT", True, "v"), ("COUNT", False, "w"), ("SUM", False, "v"), ("SUM", True, "v"),
         ("AVG", False, "v"), ("AVG", True, "v"), ("MIN", False, "v"), ("MAX", False, "v"), ("SAMPLE", False, "v"), ("SAMPLE", False, "w"),
+        ("SUM", False, "w"), ("AVG", False, "w"), ("AVG", True, "w"), ("MIN", False, "w"), ("MAX", False, "w"),  # ?w is unbound in some rows of a group (OPTIONAL)
         ("GROUP_CONCAT", False, "w"), ("GROUP_CONCAT", True, "w"), ("GROUP_CONCAT;", False, "w")]
 GROUPINGS = ["implicit", "s", "s v", "STR(?v)", "s STR(?w)", "isIRI(?v)", "(STR(?v))", "s (isIRI(?w))"]  # the last three: grouping keys that are un-aliased function calls
 
